@@ -2346,3 +2346,79 @@ func ruleLabelConsume(c *Ctx, r *R) {
 		r.undecided("unresolved:labelled-evaluator", "-", "UNRESOLVED: no runtime method reads nodeLabelledStatement.statement")
 	}
 }
+
+// ---- FORIN-abrupt ------------------------------------------------------------------------------------------------------
+
+func init() {
+	register(&Rule{ID: "FORIN-abrupt", Props: []string{"C01", "C07"}, Min: 1,
+		Doc: "P (ES5 §12.6.4 step 6.g / 7.g: 'if stmt is an abrupt completion, return stmt'): the for-in evaluator enumerates one object of the prototype chain at a time through a callback; when the body completes abruptly (return, break, continue to an outer label) the callback stops the enumeration of the current object by returning false - and on every such path it must also stop the walk up the prototype chain (clear the captured object variable). Otherwise `for (k in o) return k` runs the body again for the prototype's keys and returns the wrong key",
+		Run: ruleForInAbrupt})
+}
+
+func ruleForInAbrupt(c *Ctx, r *R) {
+	var fn *ssa.Function
+	for _, f := range c.AllSrcFuncs("") {
+		if f.Parent() != nil {
+			continue
+		}
+		for _, p := range f.Params {
+			if n := derefNamed(p.Type()); n != nil && n.Obj().Name() == "nodeForInStatement" && f.Signature.Recv() != nil && typeIs(f.Signature.Recv().Type(), ottoPath, "runtime") {
+				fn = f
+			}
+		}
+	}
+	if fn == nil {
+		r.undecided("unresolved:for-in", "-", "UNRESOLVED: evaluator of nodeForInStatement not found")
+		return
+	}
+	n := 0
+	for _, lit := range fn.AnonFuncs {
+		// the enumeration callback: func(string) bool
+		if lit.Signature.Params().Len() != 1 || lit.Signature.Results().Len() != 1 {
+			continue
+		}
+		// the captured object variable: a free variable of type **object
+		var objVar *ssa.FreeVar
+		for _, fv := range lit.FreeVars {
+			if pt, ok := fv.Type().Underlying().(*types.Pointer); ok {
+				if typeIs(pt.Elem(), ottoPath, "object") {
+					if _, isPtr := pt.Elem().Underlying().(*types.Pointer); isPtr {
+						objVar = fv
+					}
+				}
+			}
+		}
+		if objVar == nil {
+			continue
+		}
+		var clears []*ssa.Store
+		for _, ref := range *objVar.Referrers() {
+			if st, ok := ref.(*ssa.Store); ok && st.Addr == ssa.Value(objVar) && isNilConst(st.Val) {
+				clears = append(clears, st)
+			}
+		}
+		for _, b := range lit.Blocks {
+			for _, ins := range b.Instrs {
+				ret, ok := ins.(*ssa.Return)
+				if !ok || len(ret.Results) != 1 {
+					continue
+				}
+				k, ok := ret.Results[0].(*ssa.Const)
+				if !ok || k.Value == nil || k.Value.ExactString() != "false" {
+					continue
+				}
+				n++
+				cleared := false
+				for _, st := range clears {
+					if dominatesInstr(st, ret) {
+						cleared = true
+					}
+				}
+				r.check(cleared, fmt.Sprintf("%s:stop#%d", ssaFuncName(fn), n), c.Pos(instrPos(ret)), "stopping the enumeration also stops the prototype walk", "§12.6.4: on this path the for-in body completed abruptly and the callback stops enumerating the current object, but the captured object variable is not cleared, so the evaluator goes on with the prototype: `function f(o){ for (var k in o) return k }` runs the body again for inherited keys and returns one of them")
+			}
+		}
+	}
+	if n == 0 {
+		r.undecided("unresolved:callback", c.Pos(fn.Pos()), "UNRESOLVED: no enumeration callback that stops (returns false) found in the for-in evaluator")
+	}
+}
